@@ -5,8 +5,8 @@ META = dict(
     technique="explicit-state, level-synchronous BFS over Share/Deck/Store-time operation histories, replay-from-history on fresh real objects, "
               "canonical-state dedupe (time-translation invariant), reference model compared after every step",
     text="All interleavings, to depth 4 (quick) / 6 (thorough) with at most 2 / 3 queued deck elements, of value assignment, update / change / create in keyword, pair-list and dict form, item assignment and "
-         "deletion, pop / popitem / clear / setdefault / insert, every way of adding a field under an invalid name (leading underscore, leading digit, "
-         "empty, trailing newline, name of an existing Data attribute), stampNow, store time advance, detaching and re-attaching the store, and deck "
+         "deletion, pop / popitem / clear / setdefault / insert, every way of adding a field (incl. positional dict / odict / Share arguments) under an invalid name (leading underscore, leading digit, "
+         "empty, trailing newline, hyphen, space, name of an existing Data attribute), stampNow, store time advance, detaching and re-attaching the store, and deck "
          "push / pull / gulp(None) / gulp(x) / spew with truthy and falsy elements (0, 0.0, False, '', (), [] -- compared by type and value).  After every transition the real share (ordered fields incl. the raw attribute dict, stamp, deck, "
          "store link, store time) must equal the model and the call's result or exception must match; on every new state ~55 read-only views (the field views once per distinct fields/stamp/store combination, the deck views on every state) (keys, "
          "values, items, iteration, len, in, [], get, fetch, has_key, value, sift, copy, deck list) are compared.  Dedupe on (fields, stamp age, deck, attached).",
@@ -87,6 +87,7 @@ def show(r):
 # state = (fields, stamp, deck, attached, now); fields = tuple of (name, value) in insertion order
 
 INVALID = [("_p", "leading underscore"), ("1a", "leading digit"), ("", "empty"), ("w\n", "trailing newline"),
+           ("pan-speed", "hyphen"), ("with space", "space"),
            ("_show", "name of an existing Data attribute")]
 INIT = "Store.Clear(); s = Store(stamp=0.0); sh = s.create('x')"
 ST0 = ((), None, (), True, 0.0)
@@ -162,6 +163,10 @@ def build_ops():
             op("sh.update(%s)" % text, "update", m_update(pairs, True))
             op("sh.change(%s)" % text, "change", m_update(pairs, False))
             op("sh.create(%s)" % text, "create", m_create(pairs))
+    op("o = Share(data=odict([('w', 1), ('v', 2)])); sh.update(o)", "update",
+       lambda st: (m_update([("w", 1), ("v", 2)], True)(st)[0], OK))           # two statements: no result to compare
+    op("o = Share(data=odict([('w', 1), ('v', 2)])); sh.change(o)", "change",
+       lambda st: (m_update([("w", 1), ("v", 2)], False)(st)[0], OK))
     for k, v in (("v", 1), ("v", 2), ("w", 1)):
         op("sh[%r] = %r" % (k, v), "[]=", (lambda k, v: lambda st: (with_fields(st, put(st[0], k, v)), OK))(k, v))
     for k in ("v", "w", "value"):
@@ -208,7 +213,19 @@ def build_ops():
                 grp = "any way of adding a field: " + label
             else:
                 grp = "field added through %s" % path + (": " + label if path == "setattr" else "")
+            if label in ("hyphen", "space") and not text.startswith(("sh.update(", "sh[")):
+                continue                                             # the two later names: pair-list update and []= only
             op(text, "invalid:" + grp, lambda st: (st, None))        # raising or ignoring: both fine
+        # the same name inside a positional mapping (dict / odict / another Share), alone and ahead of a valid field
+        for text in ("sh.update({%s: 1})" % r, "sh.change({%s: 1})" % r, "sh.update(odict([(%s, 1)]))" % r,
+                     "sh.change(odict([(%s, 1)]))" % r, "sh.create({%s: 1})" % r,
+                     "o = Share(); o.data.__dict__[%s] = 1; sh.change(o)" % r,
+                     "sh.update({%s: 1, 'v': 2})" % r):
+            if name == "_show":
+                grp = "any way of adding a field: " + label
+            else:
+                grp = "field added through a positional mapping: " + label
+            op(text, "invalid:" + grp, lambda st: (st, None))
     return ops
 
 
@@ -468,10 +485,11 @@ def run():
                              fixpoint=not level)
     ck.assumptions = [
         "an operation given an invalid field name must leave the share unchanged; raising versus silently ignoring is not compared",
-        "invalid names: leading underscore, leading digit, empty, trailing newline, and the name of an attribute every Data object already has (_show)",
+        "invalid names: leading underscore, leading digit, empty, trailing newline, hyphen, space, and the name of an attribute every Data object already has (_show); "
+        "each is tried through every adder including positional dict / odict / Share arguments of update, change and create, alone and ahead of a valid field",
         "update/change/create return the share (chaining is relied upon by Store itself); del/pop/popitem of a missing field raise KeyError, pull on an empty deck IndexError",
         "the deck holds at most %d elements (adding operations are not applied beyond that)" % DECKCAP,
-        "the 35 invalid-field-name attempts are applied in every field/stamp/store state but only while the deck is empty (Deck and Data share no code)",
+        "the invalid-field-name attempts (%d self loops) are applied in every field/stamp/store state but only while the deck is empty (Deck and Data share no code)" % sum(1 for o in OPS if o[1].startswith("invalid:")),
         "quick tier: falsy elements (0, 0.0, False, '', (), []) are only queued into an empty deck (falsy-then-truthy orders are covered, "
         "truthy-then-falsy and falsy-falsy only in thorough)",
         "None is never pushed onto the deck (spew's 'None only when empty' presumes gulp's filter)",
@@ -479,7 +497,7 @@ def run():
     ]
     return ck.finish(
         rule="all histories of length <= %d over %d operations (value=, update/change/create x 3 argument forms, []=, del, pop, popitem, clear, setdefault, "
-             "insert, 5 invalid names x 7 adders, stampNow, advanceStamp, changeStamp, detach/attach, deck push/pull/gulp/spew with truthy and falsy non-None elements), deduped on "
+             "insert, 7 invalid names x up to 14 adders (keyword/pair/dict/odict/Share forms), stampNow, advanceStamp, changeStamp, detach/attach, deck push/pull/gulp/spew with truthy and falsy non-None elements), deduped on "
              "(ordered fields, raw dict, stamp age, deck, attached); non-trivial = distinct reachable state" % (depth, len(OPS)),
         exhaustive=True)
 
